@@ -28,8 +28,8 @@ STUBS = ["vp.memfs mounted: os.path.isfile/abspath/realpath/exists answer from a
          "file_parser.open; finder.tqdm identity; module loggers -> recorder"]
 ASSUMPTIONS = [
     "scenarios in which gcc would stop (a header resolves nowhere) or warn are outside C04 (missing headers are C18's subject)",
-    "-isystem directories are searched after all -I directories by gcc; CBI merges both lists in command-line order - only -I "
-    "is used in these scenarios, the difference is documented in DESIGN.md as outside the claim",
+    "-isystem directories are searched after all -I directories (isystem/order checks the list parse_args produces together "
+    "with the resolver); -iquote, -idirafter and #include_next are outside",
     "forced includes are named so that gcc's rule (compiler working directory first) and CBI's (main file's directory first) "
     "pick the same file",
 ]
@@ -51,6 +51,12 @@ LAST = {}
 DIRS = ["/r/a", "/r/b", "/r/i1", "/r/i2"]
 NAMES = ["x.h", "y.h"]
 ORDERS = [["/r/i1", "/r/i2"], ["/r/i2", "/r/i1"], ["/r/i1"], ["/r/i2", "/r/a"], []]
+
+
+def prepare(params):
+    import codebasin.config as config
+
+    config._load_compilers()  # warm the process-wide compiler table natively: every path must see the same state
 
 
 def _ref_resolve(exists, order, name, includer, system):
@@ -113,6 +119,45 @@ def h_resolve(e0: bool, e1: bool, e2: bool, e3: bool, e4: bool, e5: bool, e6: bo
                     LAST.update(order=order, exists={"%s/%s" % k: bool(v) for k, v in exists.items()}, lookups=trace)
                 return False
     return True
+
+
+def h_isystem(first_sys: bool, e_i: bool, e_s: bool, quote: bool, e_local: bool) -> bool:
+    """
+    post: _
+    """
+    # the search order a compiler uses: [includer's directory for the quote form], all -I in order, then all -isystem
+    import codebasin.config as config
+    from codebasin.platform import Platform
+
+    fs = memfs.MemFS("/r")
+    fs.add("/r/i1/x.h", ["@"], exists=e_i)
+    fs.add("/r/s1/x.h", ["@"], exists=e_s)
+    fs.add("/r/src/x.h", ["@"], exists=e_local)
+    argv = ["-isystem", "/r/s1", "-I", "/r/i1"] if first_sys else ["-I", "/r/i1", "-isystem", "/r/s1"]
+    STATS["compared"] += 1
+    if P.get("_twin"):
+        return False
+    rec = memfs.Recorder()
+    old = config.log
+    config.log = rec
+    try:
+        cfg = config.ArgumentParser("gcc").parse_args(argv + ["-c", "m.c"])[0]
+    finally:
+        config.log = old
+    with memfs.mounted(fs):
+        plat = Platform("p", "/r")
+        for d in cfg.include_paths:
+            plat.add_include_path(d)
+        got = plat.find_include_file("x.h", "/r/src", not quote)
+    exp = None
+    for d, e in ((["/r/src"] if quote else []) and [("/r/src", e_local)] or []) + [("/r/i1", e_i), ("/r/s1", e_s)]:
+        if e:
+            exp = d + "/x.h"
+            break
+    if P.get("_replay"):
+        LAST.update(argv=argv, include_paths=list(cfg.include_paths), quote=bool(quote),
+                    exists={"/r/src/x.h": bool(e_local), "/r/i1/x.h": bool(e_i), "/r/s1/x.h": bool(e_s)}, got=got, expected=exp)
+    return got == exp
 
 
 # --------------------------------------------------------------------------
@@ -352,6 +397,9 @@ def obligations(tier, known):
                         obs.append(Ob(id="resolve/3/o%d-n%d-d%d-%s" % (o, n, d, "angle" if sy else "quote"), kind="ch",
                                       module=__name__, func="h_resolve", params=dict(lookups=3, fix=[o, n, d, sy]),
                                       timeout=1500, group="resolve"))
+    expect = "witness:C04-isystem-order" if "C04-isystem-order" in known else "hold"
+    obs.append(Ob(id="isystem/order", kind="ch", module=__name__, func="h_isystem", params={}, timeout=200, group="resolve",
+                  expect=expect))
     for name, (fn, nbits) in TEMPLATES.items():
         obs.append(Ob(id="scn/" + name, kind="ch", module=__name__, func="h_scn", params=dict(t=name, nbits=nbits), timeout=400,
                       group="scn"))
@@ -362,4 +410,4 @@ CLAIM = ("Within the bounds, for every existence pattern, -I order, directive fo
          "compiler rule prescribes regardless of earlier look-ups, and per-line attribution of every file equals the reference "
          "preprocessor's (include-once, guards, forced and computed includes, macro state at the point of inclusion).")
 LEVEL_NOTE = ("Trusted: CrossHair/z3, vp/memfs.py, vp/refs/ref_cpp.py (confirmed against gcc -E on replay). Bounded: 8 scenario "
-              "templates, <= 4 directories, depth <= 3; -isystem/-iquote/-idirafter/#include_next are outside.")
+              "templates, <= 4 directories, depth <= 3; -iquote/-idirafter/#include_next are outside.")
